@@ -221,11 +221,19 @@ func runC12(c hx.Case) any {
 	inj := jbool(c, "dfl") && jstr(c, "ctx") != ""
 	run := func(o ...openapi3.SchemaValidationOption) map[string]any {
 		v := goValue(c["value"])
+		fired := false
+		if jbool(c, "dfl") { // the callback of DefaultsSet: must run iff a default reached the value itself
+			o = append(o, openapi3.DefaultsSet(func() { fired = true }))
+		}
 		e := s.VisitJSON(v, with(o...)...)
-		if !inj && !jbool(c, "nonjson") && !reflect.DeepEqual(v, pristine) {
+		if !inj && !jbool(c, "nonjson") && (!reflect.DeepEqual(v, pristine) || fired) {
 			unchanged = false
 		}
-		return modeObs(e, v, inj)
+		out := modeObs(e, v, inj)
+		if inj {
+			out["fired"] = fired
+		}
+		return out
 	}
 	out := map[string]any{
 		"dflt":     run(),
@@ -349,6 +357,10 @@ func cmpC12(c hx.Case, impl any, reply map[string]any) hx.Verdict {
 		if after, has := mm["after"]; has && hx.Canon(after) != hx.Canon(obs[mode]["after"]) {
 			v.IM = false
 			v.Detail += fmt.Sprintf(" | mode %s: value after validation %v, model %v", mode, hx.Canon(obs[mode]["after"]), hx.Canon(after))
+		}
+		if f, has := mm["fired"]; has && f != obs[mode]["fired"] {
+			v.IM = false
+			v.Detail += fmt.Sprintf(" | mode %s: DefaultsSet callback fired=%v, model %v", mode, obs[mode]["fired"], f)
 		}
 		if mode == "dflt" || mode == "multi" {
 			if !sameStrs(errKeys(obs[mode]), errKeys(mm), ordered) {
